@@ -104,6 +104,7 @@ BUILTIN_CLASSES = {
     "int": ["object"],
     "bool": ["int"],
     "str": ["object"],
+    "bytes": ["object"],
     "float": ["object"],
     "tuple": ["object"],
     "list": ["object"],
@@ -111,6 +112,8 @@ BUILTIN_CLASSES = {
     "OrderedDict": ["dict"],
     "set": ["object"],
     "function": ["object"],
+    "staticmethod": ["object"],
+    "classmethod": ["object"],
     "generator": ["object"],
     "MarkerObject": ["object"],
     "BaseException": ["object"],
